@@ -208,6 +208,9 @@ fn shape_check(m: &HashMap<Key, Val, TableHasher>, model: &BTreeMap<u8, (u32, u6
             fail(format!("{}: size_ctl {} != 0.75*{}", when, vi::size_ctl(m), n));
         }
     }
+    if n != 0 && n < (1 << 30) && model.len() as isize >= vi::size_ctl(m) {
+        fail(format!("{}: {} entries have reached the threshold {} of the {}-bin table but it did not grow", when, model.len(), vi::size_ctl(m), n));
+    }
     if !vi::next_table_is_null(m) {
         fail(format!("{}: next_table not null at quiescence", when));
     }
